@@ -257,6 +257,68 @@ pre_reset_rogue(void *epv, void *arg)
 	br_ssl_server_set_policy(ep->sc, &rogue.vtable);
 }
 
+/* rogue client certificate policy: presents somebody else's EC certificate for static
+ * ECDH client authentication (no CertificateVerify: Finished is the only proof of the
+ * key) and uses a guessed premaster secret instead of the ECDH result */
+typedef struct {
+	const br_ssl_client_certificate_class *vtable;
+	const br_x509_certificate *chain;
+	size_t chain_len;
+	unsigned char guess[80];
+	size_t guess_len;
+	int choose_calls, keyx_calls;
+	unsigned auth_types;
+} rogue_ccert;
+static rogue_ccert rcc;
+
+static void rcc_start_name_list(const br_ssl_client_certificate_class **p) { (void)p; }
+static void rcc_start_name(const br_ssl_client_certificate_class **p, size_t len) { (void)p; (void)len; }
+static void rcc_append_name(const br_ssl_client_certificate_class **p, const unsigned char *d, size_t l) { (void)p; (void)d; (void)l; }
+static void rcc_end_name(const br_ssl_client_certificate_class **p) { (void)p; }
+static void rcc_end_name_list(const br_ssl_client_certificate_class **p) { (void)p; }
+static void
+rcc_choose(const br_ssl_client_certificate_class **p, const br_ssl_client_context *cc, uint32_t auth_types,
+	br_ssl_client_certificate *choices)
+{
+	rogue_ccert *r = (rogue_ccert *)(void *)p;
+	(void)cc;
+	r->choose_calls ++;
+	r->auth_types = auth_types;
+	choices->auth_type = BR_AUTH_ECDH;
+	choices->hash_id = -1;
+	choices->chain = r->chain;
+	choices->chain_len = r->chain_len;
+}
+static uint32_t
+rcc_do_keyx(const br_ssl_client_certificate_class **p, unsigned char *data, size_t *len)
+{
+	rogue_ccert *r = (rogue_ccert *)(void *)p;
+	r->keyx_calls ++;
+	memcpy(data, r->guess, r->guess_len);
+	*len = r->guess_len;
+	return 1;
+}
+static size_t
+rcc_do_sign(const br_ssl_client_certificate_class **p, int hash_id, size_t hv_len, unsigned char *data, size_t len)
+{
+	(void)p; (void)hash_id; (void)hv_len; (void)data; (void)len;
+	return 0;
+}
+static const br_ssl_client_certificate_class rcc_vtable = {
+	sizeof(rogue_ccert), rcc_start_name_list, rcc_start_name, rcc_append_name, rcc_end_name, rcc_end_name_list,
+	rcc_choose, rcc_do_keyx, rcc_do_sign
+};
+
+static void
+pre_reset_rogue_ccert(void *epv, void *arg)
+{
+	tp_ep *ep = epv;
+	(void)arg;
+	rcc.vtable = &rcc_vtable;
+	rcc.choose_calls = rcc.keyx_calls = 0;
+	br_ssl_client_set_client_certificate(ep->cc, &rcc.vtable);
+}
+
 static void
 pre_reset_drop_hash(void *epv, void *arg)
 {
@@ -265,7 +327,7 @@ pre_reset_drop_hash(void *epv, void *arg)
 }
 
 /* public keys for the scripted validator, decoded from fixture certificates */
-static tp_anchor pk_ec384, pk_weak, pk_srv_rsa, pk_srv_ecec;
+static tp_anchor pk_ec384, pk_weak, pk_srv_rsa, pk_srv_ecec, pk_srv_ecrsa, pk_cli_ec;
 
 static void
 pre_reset_vscript(void *epv, void *arg)
@@ -593,6 +655,8 @@ auth_scenarios(long long seed)
 	tp_load_anchor(&pk_weak, FX_weak_rsa_crt, FX_weak_rsa_crt_len);
 	tp_load_anchor(&pk_srv_rsa, FX_srv_rsa_crt, FX_srv_rsa_crt_len);
 	tp_load_anchor(&pk_srv_ecec, FX_srv_ecec_crt, FX_srv_ecec_crt_len);
+	tp_load_anchor(&pk_srv_ecrsa, FX_srv_ecrsa_crt, FX_srv_ecrsa_crt_len);
+	tp_load_anchor(&pk_cli_ec, FX_cli_ec_crt, FX_cli_ec_crt_len);
 	for (kx = 0; kx < 5; kx ++) for (v = 0x0301; v <= 0x0303; v += 2) {
 		scenario sc;
 		vscript vs;
@@ -651,6 +715,41 @@ auth_scenarios(long long seed)
 			if (!o.c_ready || !o.s_ready || o.c_err || o.s_err) {
 				snprintf(tp_case, sizeof tp_case, "%s auth-case=control-client-cert", scen_desc);
 				TP_VIOL("auth-control-failed", "handshake with an honest client certificate did not complete");
+			}
+		}
+		/* static ECDH client authentication by somebody who holds a certificate but not its key: the
+		   certified key is on another curve than the server's (the server's ECDH fails) or on the same
+		   curve; the rogue derives its Finished from premaster guesses made of public data */
+		if (kx == TP_KX_ECDH_RSA || kx == TP_KX_ECDH_ECDSA) {
+			int victim, g;
+			for (victim = 0; victim < 2; victim ++) for (g = 0; g < 6; g ++) {
+				tp_cfg cc, sv; uint16_t sb[1]; vf_rng r;
+				const br_x509_certificate *vc = victim == 0 ? tp_fx.ch_srv_ec384 : tp_fx.ch_cli_ec;
+				const br_x509_pkey *vpk = victim == 0 ? &pk_ec384.ta.pkey : &pk_cli_ec.ta.pkey;
+				const br_x509_pkey *spk = kx == TP_KX_ECDH_ECDSA ? &pk_srv_ecec.ta.pkey : &pk_srv_ecrsa.ta.pkey;
+				char nm[120];
+				static const char *gn[6] = { "victim-point-bytes-1..32", "zeros", "server-point-x", "victim-point-bytes-0..31",
+					"victim-point-y-bytes", "victim-point-bytes-1..48" };
+				vf_rng_init(&r, seeds_key, 40 + victim * 8 + g);
+				cfg_for(&sc, &cc, &sv, sb, &r, 0);
+				cc.client_auth = 0; sv.client_auth = 1;
+				rcc.chain = vc; rcc.chain_len = 1;
+				rcc.guess_len = 32;
+				memset(rcc.guess, 0, sizeof rcc.guess);
+				switch (g) {
+				case 0: memcpy(rcc.guess, vpk->key.ec.q + 1, 32); break;
+				case 1: break;
+				case 2: memcpy(rcc.guess, spk->key.ec.q + 1, 32); break;
+				case 3: memcpy(rcc.guess, vpk->key.ec.q, 32); break;
+				case 4: memcpy(rcc.guess, vpk->key.ec.q + 1 + (vpk->key.ec.qlen - 1) / 2, 32); break;
+				default: memcpy(rcc.guess, vpk->key.ec.q + 1, 48); rcc.guess_len = 48; break;
+				}
+				run_scenario(&sc, NULL, 0, 0, &o, pre_reset_rogue_ccert, NULL, NULL, NULL, &cc, &sv);
+				snprintf(nm, sizeof nm, "static-ecdh-client-without-key:%s:premaster=%s", victim == 0 ? "certificate-on-P384" : "certificate-on-P256", gn[g]);
+				expect_refused(nm, &o, 1);
+				vf_stat("rogue_static_ecdh_runs", 1);
+				vf_stat("rogue_static_ecdh_keyx_calls", rcc.keyx_calls);
+				vf_distinct("rogue_static_ecdh", "%s/%04x/%d/%d auth_types=%x", kxn[kx], v, victim, g, rcc.auth_types);
 			}
 		}
 		/* weak server key: honest validator must refuse (RSA kx only: the weak fixture is RSA) */
